@@ -18,11 +18,11 @@ def run(chk):
         'must happen exactly when the contract says. distinct_nontrivial = '
         'distinct (call, abstract pre-state) steps that changed table/order')
     sh = common.stage_graph(chk, 'MC_VarDecl', 'MC_VarDecl.cfg' if q else 'MC_VarDecl_deep.cfg',
-                            ['a', 'b', 'c'], 1, limit=2000 if q else 60000,
+                            ['a', 'b', 'c'], 1, limit=chk.th(2000, 60000),
                             need_actions=['add_var', 'undeclare', 'swap', 'gc', 'var'],
                             tag='vd')
-    hs = common.stage_histories(chk, ntraces=128 if q else 6000,
-                                steps=80 if q else 200, nvars_choices=[6],
+    hs = common.stage_histories(chk, ntraces=chk.th(128, 6000),
+                                steps=chk.th(80, 200), nvars_choices=[6],
                                 profile='decl', tag='decl')
     sh += hs
     sh += common.stage_wide(chk, 'decl')
@@ -31,8 +31,8 @@ def run(chk):
                                  profile='decl_gap', tag='gap')
     # the same four views read THROUGH dd.autoref.BDD (its `vars` is an alias of the manager's dict)
     from harness.checks import c08 as _c08
-    at = [dict(shard=chk.shard('au_c14_%d' % i), first_tid=14500000 + i * 100, ntraces=3 if q else 40,
-               seed=chk.seed, nvars_choices=[3, 4, 5], steps=70 if q else 120) for i in range(8)]
+    at = [dict(shard=chk.shard('au_c14_%d' % i), first_tid=14500000 + i * 100, ntraces=chk.th(3, 40),
+               seed=chk.seed, nvars_choices=[3, 4, 5], steps=chk.th(70, 120)) for i in range(8)]
     ash, _ = chk.generate(_c08.auto_task, at)
     sh += ash
     chk.validate('TraceBDD', 'TraceBDD.cfg', sh)
